@@ -757,6 +757,84 @@ Proof.
 Qed.
 
 
+
+(* ------------------------------------------------------------------------------------------ *)
+(* persistent_chunks gauge = the saved chunks the buffer knows about, as long as no unlink fails   *)
+
+Definition unlink_ok (e : b_event) : bool :=
+  match e with
+  | BFeedLoad _ ul => ul
+  | BConsumed _ ul => ul
+  | _ => true
+  end.
+
+Lemma nsaved_nonneg : forall l, 0 <= nsaved l.
+Proof. induction l as [|c l IH]; cbn [nsaved]; [lia|]. unfold bool_Z. destruct (ch_saved c); lia. Qed.
+
+Definition pg_inv (cfg : bcfg) (s : bstate) : Prop :=
+  m_pchunks (b_m s) = nsaved (b_queue s) + nsaved_opt (b_hand s) + nsaved (b_window s) + nsaved (b_held s)
+                      + nsaved (b_parked s) + zlen (b_left s) /\
+  (bc_dir cfg = false -> nsaved (b_queue s) + nsaved_opt (b_hand s) + nsaved (b_window s) + nsaved (b_held s) = 0) /\
+  all_saved (b_left s).
+
+Lemma pg_step : forall cfg s e s', pg_inv cfg s -> unlink_ok e = true -> b_step cfg s e = Some s' -> pg_inv cfg s'.
+Proof.
+  intros cfg s e s' (P1 & P2 & P3) Hu Hs. unfold pg_inv in *.
+  destruct s as [[mp mt mpe mc ml md mpc mpb mio] q h w held parked left lost nf orph ph acc rcv].
+  cbn [b_m b_queue b_hand b_window b_held b_parked b_left b_lost b_nfiles b_orphans b_phase b_accepted b_recovered
+       m_pending m_in_t m_in_p m_consumed m_leftover m_dropped m_pchunks m_pbytes m_ioerr] in *.
+  pose proof (nsaved_nonneg q). pose proof (nsaved_nonneg w). pose proof (nsaved_nonneg held).
+  assert (0 <= nsaved_opt h) by (destruct h as [c0|]; unfold nsaved_opt, bool_Z; [destruct (ch_saved c0)|]; lia).
+  destruct (bc_dir cfg) eqn:Hdir; [clear P2|specialize (P2 eq_refl)].
+  all: destruct e; cbn [unlink_ok] in Hu; subst; unfold b_step in Hs; unfold save_chunk, op_unload, op_remove, man_dropped, m_resolve, m_input, set_m in Hs;
+    cbn [b_m b_queue b_hand b_window b_held b_parked b_left b_lost b_nfiles b_orphans b_phase b_accepted b_recovered
+       m_pending m_in_t m_in_p m_consumed m_leftover m_dropped m_pchunks m_pbytes m_ioerr ch_saved ch_loaded ch_size ch_id] in Hs;
+    destruct ph; cbn [running feeding] in Hs; try discriminate;
+    b_crunch; try discriminate.
+  all: try (match goal with H : take_id _ _ = Some _ |- _ => apply take_id_spec in H; destruct H as (? & ? & ?) end).
+  all: cbn [b_m b_queue b_hand b_window b_held b_parked b_left b_lost m_pchunks ch_saved];
+       rewrite ?zlen_app, ?nsaved_app, ?zlen_cons, ?zlen_nil in *; cbn [nsaved nsaved_opt bool_Z ch_saved] in *.
+  all: repeat match goal with
+       | |- context [bool_Z (ch_saved ?c)] => destruct (ch_saved c) eqn:?
+       | H : context [bool_Z (ch_saved ?c)] |- _ => destruct (ch_saved c) eqn:?
+       end; cbn [bool_Z negb andb] in *; try discriminate.
+  all: repeat split; try lia; try assumption;
+       try (apply all_saved_snoc; [assumption|first [assumption|reflexivity]]);
+       try (intros Hd; discriminate).
+  all: try (intros _).
+  all: repeat match goal with
+       | l : list chunk |- _ => lazymatch goal with H : 0 <= nsaved l |- _ => fail | _ => pose proof (nsaved_nonneg l) end
+       end; try lia.
+  all: rewrite Hdir in *; cbn [negb andb] in *; try discriminate;
+       repeat match goal with H : _ && false = true |- _ => rewrite andb_false_r in H; discriminate end.
+  all: exfalso; rewrite !andb_false_r, ?andb_false_l in Heqb; simpl in Heqb;
+       repeat rewrite andb_false_r in Heqb; discriminate.
+Qed.
+
+Lemma pg_run : forall cfg evs s s', pg_inv cfg s -> forallb unlink_ok evs = true -> b_run cfg s evs = Some s' -> pg_inv cfg s'.
+Proof.
+  intros cfg. induction evs as [|e evs IH]; intros s s' Hi Hu Hr; simpl in Hr, Hu.
+  - inversion Hr; subst; exact Hi.
+  - apply andb_true_iff in Hu. destruct Hu as [Hu1 Hu2].
+    destruct (b_step cfg s e) eqn:Hs; [|discriminate]. eapply IH; [|exact Hu2|exact Hr]. eapply pg_step; eauto.
+Qed.
+
+(* persistent_chunks = the saved chunks the buffer still knows (queued, with the feeder, in the window, with the
+   consumer, saved at shutdown, handed back), as long as no unlink failed; with the file count of the buffer
+   invariant: persistent_chunks = files - (files never recovered) - (files of dropped chunks) *)
+Lemma persistent_gauge_lemma : forall cfg n0 evs s,
+  forallb unlink_ok evs = true -> b_run cfg (b_init n0) evs = Some s ->
+  m_pchunks (b_m s) = b_nfiles s - (n0 - b_recovered s) - b_orphans s.
+Proof.
+  intros cfg n0 evs s Hu Hr.
+  assert (Hpg : pg_inv cfg s).
+  { eapply pg_run; [|exact Hu|exact Hr]. unfold pg_inv, b_init; simpl. repeat split; try reflexivity; constructor. }
+  destruct Hpg as (P1 & _ & _).
+  destruct (b_run_inv cfg n0 evs _ _ (b_init_inv cfg n0) Hr) as [_ _ _ _ _ _ _ I8 _].
+  lia.
+Qed.
+
+
 (* ------------------------------------------------------------------------------------------ *)
 (* E. client                                                                                     *)
 
@@ -1019,17 +1097,16 @@ Proof.
     constructor; cbn [s_b s_c c_taken c_cb_consumed c_cb_left c_phase set_phase] in *; try assumption.
     all: try (intros Hd; specialize (L4 Hd); discriminate).
   - (* SFinish *)
-    destruct (c_step cc c CFinish) as [c'|] eqn:Hcs; [|discriminate].
+    destruct (c_phase c) eqn:Hcp; try discriminate.
     destruct (b_step bc b BFinish) as [b'|] eqn:Hbs; [|discriminate]. inversion Hs; subst s'; clear Hs.
-    assert (Hb' := b_step_inv _ _ _ _ _ Hb Hbs). assert (Hc' := c_step_inv _ _ _ _ Hc Hcs).
-    unfold c_step in Hcs. destruct (c_phase c) eqn:Hcp; try discriminate. destruct (c_left c); [|discriminate].
-    inversion Hcs; subst c'; clear Hcs.
+    assert (Hb' := b_step_inv _ _ _ _ _ Hb Hbs).
     unfold b_step in Hbs. destruct (b_phase b) eqn:Hph; try discriminate.
     destruct (b_queue b); try discriminate. destruct (b_hand b); try discriminate.
     destruct (b_window b); try discriminate. destruct (b_held b) eqn:Hh; try discriminate.
     inversion Hbs; subst b'; clear Hbs.
-    constructor; cbn [s_b s_c b_m b_held b_phase c_taken c_cb_consumed c_cb_left c_phase set_phase] in *; try assumption; try reflexivity.
+    constructor; cbn [s_b s_c b_m b_held b_phase] in *; try assumption; try reflexivity.
     all: try (rewrite zlen_nil in *; lia).
+    all: intros _; exact Hcp.
 Qed.
 
 Lemma sys_run_inv : forall bc cc n0 evs s s', sys_inv bc n0 s -> sys_run bc cc s evs = Some s' -> sys_inv bc n0 s'.
@@ -1261,7 +1338,7 @@ Definition example_run : list sys_event :=
    SC COpen; SC COpenOk; SC CRecoveryDone;
    SB BFeedTake; SB BFeedPush; STake; SC CSendOk; SC CQueue; SC AckerTake; SAck (Some 0) true;
    SB BFeedTake; SB (BFeedLoad true true); SB BFeedPush; STake; SC CSendFail; SC AckerEnd; SC CCollectDone;
-   SB BDestroy; SB BFeedEnd; SStop; SC CRetryStop; SHandBack true; SFinish].
+   SB BDestroy; SB BFeedEnd; SStop; SC CRetryStop; SHandBack true; SC CFinish; SFinish].
 
 Lemma example_run_lemma :
   exists s, sys_run (bcfg_std false) (CC 3) (sys_init 0) example_run = Some s /\
